@@ -549,6 +549,7 @@ func init() {
 				}})
 			}
 			us = append(us, core.Unit{Key: "factory-isolation", Cost: 4, Run: c09FactoryIsolation})
+			us = append(us, core.Unit{Key: "csv-reader-object-reuse", Cost: 4, Run: c09CsvReuseUnit})
 			// (vii) element types: results do not depend on which instances of which element type computed before
 			for _, k := range typedKinds() {
 				k := k
